@@ -570,4 +570,100 @@ theorem evictAddrHosts_queriers (now : Nat) (items : List (BList × BList × BLi
     simp only [evictAddrHosts]
     rw [evictAddrHosts_queriers now items rest, resolveUpdated_queriers]
 
+/-! ### the set of cache-only types is touched by `browse` / `browse_cache` / `stop_browse` only -/
+
+@[simp] theorem addRerun_cacheOnly (s : State) (n : Nat) (c : RCmd) : (addRerun s n c).cacheOnly = s.cacheOnly := rfl
+@[simp] theorem addTimers_cacheOnly (s : State) (ts : List Nat) : (addTimers s ts).cacheOnly = s.cacheOnly := rfl
+@[simp] theorem markResolved_cacheOnly (s : State) (l : List BList) : (markResolved s l).cacheOnly = s.cacheOnly := rfl
+
+@[simp] theorem addPending_cacheOnly (s : State) (now : Nat) (i : BList) : (addPending s now i).cacheOnly = s.cacheOnly := by
+  unfold addPending
+  split <;> rfl
+
+@[simp] theorem addPendings_cacheOnly (now : Nat) : ∀ (l : List BList) (s : State),
+    (addPendings s now l).cacheOnly = s.cacheOnly
+  | [], _ => rfl
+  | i :: rest, s => by
+    simp only [addPendings]
+    rw [addPendings_cacheOnly now rest, addPending_cacheOnly]
+
+@[simp] theorem resolveUpdated_cacheOnly (s : State) (now : Nat) (u : List BList) :
+    (resolveUpdated s now u).1.cacheOnly = s.cacheOnly := by
+  unfold resolveUpdated
+  split
+  · rfl
+  · simp only [addPendings_cacheOnly, markResolved_cacheOnly]
+
+@[simp] theorem queryCacheForService_cacheOnly (s : State) (now : Nat) (ty : BList) (ch : Nat) :
+    (queryCacheForService s now ty ch).1.cacheOnly = s.cacheOnly := by
+  simp only [queryCacheForService, addPendings_cacheOnly, markResolved_cacheOnly]
+
+@[simp] theorem handleResponse_cacheOnly (s : State) (now : Nat) (intf : Intf) (m : Wire.Msg) :
+    (handleResponse s now intf m).1.cacheOnly = s.cacheOnly := by
+  simp only [handleResponse, resolveUpdated_cacheOnly, addTimers_cacheOnly]
+
+@[simp] theorem handleRead_cacheOnly (s : State) (now : Nat) (p : Packet) :
+    (handleRead s now p).1.cacheOnly = s.cacheOnly := by
+  unfold handleRead
+  repeat' split
+  all_goals first | rfl | exact handleResponse_cacheOnly _ _ _ _
+
+@[simp] theorem ingress_cacheOnly (now : Nat) : ∀ (pkts : List Packet) (s : State),
+    (ingress s now pkts).1.cacheOnly = s.cacheOnly
+  | [], _ => rfl
+  | p :: rest, s => by
+    simp only [ingress]
+    rw [ingress_cacheOnly now rest, handleRead_cacheOnly]
+
+theorem evictAddrHosts_cacheOnly (now : Nat) (items : List (BList × BList × BList × Nat)) :
+    ∀ (hosts : List BList) (s : State), (evictAddrHosts s now items hosts).1.cacheOnly = s.cacheOnly
+  | [], _ => rfl
+  | h :: rest, s => by
+    simp only [evictAddrHosts]
+    rw [evictAddrHosts_cacheOnly now items rest, resolveUpdated_cacheOnly]
+
+theorem execRerun_cacheOnly (s : State) (now : Nat) (c : RCmd) : (execRerun s now c).1.cacheOnly = s.cacheOnly := by
+  cases c with
+  | browse ty d ch => simp [execRerun, execBrowse, addRerun]
+  | resolveHost h d ch =>
+    simp only [execRerun, execResolveHost]
+    split
+    · rfl
+    · simp only [if_true]
+      split <;> rfl
+  | resolve inst k =>
+    simp only [execRerun, execResolveInst]
+    split
+    · rfl
+    · simp only []
+      split <;> rfl
+  | verify inst t =>
+    simp only [execRerun, execVerify, if_true]
+    split <;> rfl
+
+theorem runReruns_cacheOnly (now : Nat) : ∀ (fuel : Nat) (keep rest : List Rerun) (s : State),
+    (runReruns s now fuel keep rest).1.cacheOnly = s.cacheOnly
+  | 0, _, _, _ => rfl
+  | _ + 1, _, [], _ => rfl
+  | fuel + 1, keep, r :: rest, s => by
+    unfold runReruns
+    split
+    · simp only []
+      rw [runReruns_cacheOnly now fuel]
+      exact execRerun_cacheOnly _ now r.cmd
+    · exact runReruns_cacheOnly now fuel _ _ s
+
+/-- membership in `insertSet` -/
+theorem mem_insertSet (l : List BList) (x y : BList) : y ∈ insertSet l x ↔ y ∈ l ∨ y = x := by
+  unfold insertSet
+  split
+  · rename_i h
+    have hx : x ∈ l := by simpa using h
+    constructor
+    · exact Or.inl
+    · rintro (h | rfl)
+      · exact h
+      · exact hx
+  · simp
+
 end Mdns.Client
